@@ -498,9 +498,21 @@ class CNF(SimpleSequence[Clause]):
     ## CNF Assertions
     ##
 
+    def _assert_unsatisfiable(self, in_list: Sequence[Var]):
+        """Used when ``k`` is out of range for ``len(in_list)`` variables, so
+        that no assignment can satisfy the requested relation.
+        """
+        if not in_list:
+            raise ValueError("cannot take pop count of empty list")
+        self.prepend(CNF([Clause(in_list[0]), Clause(~in_list[0])]))
+
     def assert_k_of_n(self, k: int, in_list: Sequence[Var]):
         # TODO DOC
         # TODO: Describe this function's purpose.
+        if k > len(in_list):
+            # The bits of `k` do not fit the pop count's width
+            self._assert_unsatisfiable(in_list)
+            return
         in_binary =  int_to_binary(k)
         sum_bits = self.pop_count(in_list, len(in_binary)+1)
         # Add zero padding to the left.
@@ -522,6 +534,14 @@ class CNF(SimpleSequence[Clause]):
         self._inequality_assertion(False, k, in_list)
 
     def _inequality_assertion(self, assert_less_than: bool, k: int, in_list: Sequence[Var]):
+        # The comparison below has no room for a sign bit when `k` needs as
+        # many bits as the pop count, which can only happen for `k >= len(in_list)`,
+        # where the answer does not depend on the variables
+        if assert_less_than and k > len(in_list):
+            return
+        if not assert_less_than and k >= len(in_list):
+            self._assert_unsatisfiable(in_list)
+            return
         in_binary = int_to_binary(k)
         sum_bits = self.pop_count(in_list, len(in_binary)+1)
         k_vars = self.get_n_fresh(len(in_binary))
